@@ -155,6 +155,6 @@ Laws ==
 \* no collection of zero-sized elements in the menu (an unbounded count would never end)
 ASSUME \A ti \in 1..NT : Types[ti][1] \in {"vec", "set", "map"} => MinSize(ElemTy(Types[ti], 1)) > 0
 LongQuick    == <<127, 128>>
-LongThorough == <<127, 128, 300, 16383, 16384>>
-LongMid      == <<127, 128, 300, 2000>>
+LongThorough == <<127, 128, 129, 300, 1000>>
+
 =============================================================================
